@@ -171,6 +171,11 @@ theorem stat_none_of_missing (g : Fs) (p : RPath) (par : List Name) (n : Name)
     (h : g.resolve p true = .missing par n) : g.stat p = none := by
   simp [Fs.stat, h]
 
+/-- nothing at a plain path, and no link above it: `lstat` finds nothing -/
+theorem lexists_false_of_absent (g : Fs) (ns : List Name) (hl : NoLinkAbove g.root ns)
+    (h : g.root.getAt ns = none) : g.lexists (plainPath ns) = false := by
+  rcases resolve_plain_nofollow g ns hl with hr | ⟨par, n, hr, _⟩ | ⟨e, hr⟩ <;> simp [Fs.lexists, Fs.lstat, hr, h]
+
 /-! ## The exact effect of each operation on a fresh plain target -/
 
 theorem execOp_copy_fresh (g : Fs) (c : Cfg) (sn par : List Name) (nm : Name) (k : Nat) (es : Entries)
@@ -256,33 +261,37 @@ theorem relJoin_plain (ns rel : List Name) : relJoin (plainPath ns) rel = plainP
   | nil => simp [relJoin]
   | cons a r => simp [relJoin, plainPath]
 
-theorem walkEntry_file (fs : Fs) (c : Cfg) (hd : c.dereference = false) (hn : c.noClobber = false)
-    (src tb : RPath) (f : Nat) (rel : List Name) (anc : List (List Name)) (cp : List Name) (k : Nat)
+theorem walkEntry_file (fs : Fs) (c : Cfg) (hd : c.dereference = false) (src tb : RPath) (rel : List Name)
+    (hn : c.noClobber = false ∨ fs.lexists (relJoin tb rel) = false)
+    (f : Nat) (anc : List (List Name)) (cp : List Name) (k : Nat)
     (hl : fs.lstat (relJoin src rel) = some (cp, .file k)) :
     walkEntry fs c none src tb (f + 1) rel anc = [.copy (relJoin src rel) (relJoin tb rel)] := by
-  simp [walkEntry, hd, hn, hl, Node.kind, classifyKind, Node.isLink]
+  rcases hn with hn | hn <;> simp [walkEntry, hd, hn, hl, Node.kind, classifyKind, Node.isLink]
 
-theorem walkEntry_special (fs : Fs) (c : Cfg) (hd : c.dereference = false) (hn : c.noClobber = false)
-    (src tb : RPath) (f : Nat) (rel : List Name) (anc : List (List Name)) (cp : List Name) (k : FileKind) (d : Nat)
+theorem walkEntry_special (fs : Fs) (c : Cfg) (hd : c.dereference = false) (src tb : RPath) (rel : List Name)
+    (hn : c.noClobber = false ∨ fs.lexists (relJoin tb rel) = false)
+    (f : Nat) (anc : List (List Name)) (cp : List Name) (k : FileKind) (d : Nat)
     (hk : k = .socket ∨ k = .chr ∨ k = .fifo)
     (hl : fs.lstat (relJoin src rel) = some (cp, .special k d)) :
     walkEntry fs c none src tb (f + 1) rel anc = [.special (relJoin src rel) (relJoin tb rel)] := by
-  rcases hk with hk | hk | hk <;> subst hk <;>
+  rcases hn with hn | hn <;> rcases hk with hk | hk | hk <;> subst hk <;>
     simp [walkEntry, hd, hn, hl, Node.kind, classifyKind, Node.isLink]
 
-theorem walkEntry_link (fs : Fs) (c : Cfg) (hd : c.dereference = false) (hn : c.noClobber = false)
-    (src tb : RPath) (f : Nat) (rel : List Name) (anc : List (List Name)) (cp : List Name) (t : RPath)
+theorem walkEntry_link (fs : Fs) (c : Cfg) (hd : c.dereference = false) (src tb : RPath) (rel : List Name)
+    (hn : c.noClobber = false ∨ fs.lexists (relJoin tb rel) = false)
+    (f : Nat) (anc : List (List Name)) (cp : List Name) (t : RPath)
     (hrel : rel ≠ [])
     (hl : fs.lstat (relJoin src rel) = some (cp, .link t)) :
     walkEntry fs c none src tb (f + 1) rel anc = [.link t (relJoin tb rel)] := by
-  simp [walkEntry, hd, hn, hl, Node.kind, classifyKind, Node.isLink, hrel]
+  rcases hn with hn | hn <;> simp [walkEntry, hd, hn, hl, Node.kind, classifyKind, Node.isLink, hrel]
 
-theorem walkEntry_dir (fs : Fs) (c : Cfg) (hd : c.dereference = false) (hn : c.noClobber = false)
-    (src tb : RPath) (f : Nat) (rel : List Name) (anc : List (List Name)) (cp : List Name) (es es' : Entries)
+theorem walkEntry_dir (fs : Fs) (c : Cfg) (hd : c.dereference = false) (src tb : RPath) (rel : List Name)
+    (hn : c.noClobber = false ∨ fs.lexists (relJoin tb rel) = false)
+    (f : Nat) (anc : List (List Name)) (cp : List Name) (es es' : Entries)
     (hl : fs.lstat (relJoin src rel) = some (cp, .dir es)) (hg : fs.root.getAt cp = some (.dir es')) :
     walkEntry fs c none src tb (f + 1) rel anc =
       .mkdir (relJoin tb rel) ::
         (es'.map (·.1)).flatMap fun n => walkEntry fs c none src tb f (rel ++ [n]) (cp :: anc) := by
-  simp [walkEntry, hd, hn, hl, hg, Node.kind, classifyKind, Node.isLink]
+  rcases hn with hn | hn <;> simp [walkEntry, hd, hn, hl, hg, Node.kind, classifyKind, Node.isLink]
 
 end Xcp
